@@ -994,6 +994,20 @@ pub fn wide_docs(n: usize) -> Vec<MObj> {
     ]
 }
 
+/// The quick tier's universe: the full alphabets for everything but the (large) matrix family.
+pub fn universe_quick() -> Vec<RuleSpec> {
+    let mut out = family_single(1);
+    out.extend(family_bodies(1));
+    out.extend(family_conditions(1));
+    out.extend(family_regex(4));
+    out.extend(family_matrix(0));
+    out.extend(family_matrix(1).into_iter().step_by(13));
+    out.extend(family_castconds(0));
+    out.extend(family_paths(0));
+    out.extend(family_wide());
+    out
+}
+
 pub fn universe(level: u8) -> Vec<RuleSpec> {
     let mut out = family_single(level);
     out.extend(family_bodies(level));
